@@ -24,6 +24,10 @@ def stage_m(chk, tier):
     # as-built: TLC must find a Durable counterexample (documents the open findings)
     ra = core.tlc("Storage", "Storage_asbuilt.cfg", workers=4, timeout=600)
     chk.cov["asbuilt_model_violates"] = ra.violated
+    # the two-shard product (Storage2Gen.tla) keeps the per-shard properties and restarts / flushes both shards together
+    r2 = core.tlc("Storage2Gen", "Storage2_m.cfg", workers=8, timeout=900)
+    core.tlc_ok(r2, "Storage2Gen/Storage2_m.cfg (design parameterisation of the two-shard product must satisfy DurableBoth, NoForeignBoth, RestartTogether, FlushTogether)")
+    chk.cov["two_shard_model_states"] = r2.distinct
     return r
 
 
